@@ -31,6 +31,8 @@ enum Step {
 struct Variant {
     name: &'static str,
     watch_file: Option<&'static str>,
+    /// the spelling the recursive watch on the source directory is registered with
+    root: &'static str,
     steps: Vec<Step>,
 }
 
@@ -45,36 +47,39 @@ fn variants() -> Vec<Variant> {
     let rmdir = |p: &str| Step::Op(Op::RemoveDir { path: p.to_owned() }, SaveStyle::InPlace);
     let mv = |a: &str, b: &str| Step::Op(Op::Rename { from: a.to_owned(), to: b.to_owned() }, SaveStyle::InPlace);
     vec![
-        Variant { name: "save_in_place", watch_file: None, steps: vec![edit("src/a.lua", SaveStyle::InPlace)] },
-        Variant { name: "save_atomic", watch_file: None, steps: vec![edit("src/a.lua", SaveStyle::Atomic)] },
-        Variant { name: "save_delete_recreate", watch_file: None, steps: vec![edit("src/a.lua", SaveStyle::DeleteRecreate)] },
-        Variant { name: "create_file", watch_file: None, steps: vec![add("src/new.lua")] },
-        Variant { name: "create_file_in_nested_existing_dir", watch_file: None, steps: vec![add("src/sub/new.lua")] },
-        Variant { name: "delete_file", watch_file: None, steps: vec![rm("src/a.lua")] },
-        Variant { name: "delete_nested_file", watch_file: None, steps: vec![rm("src/sub/b.lua")] },
-        Variant { name: "rm_r_directory", watch_file: None, steps: vec![rmdir("src/sub")] },
-        Variant { name: "rename_file", watch_file: None, steps: vec![mv("src/a.lua", "src/renamed.lua")] },
-        Variant { name: "two_saves_in_one_window", watch_file: None, steps: vec![edit("src/a.lua", SaveStyle::InPlace), Step::Sleep(100), edit("src/a.lua", SaveStyle::InPlace)] },
-        Variant { name: "save_then_delete_in_one_window", watch_file: None, steps: vec![edit("src/a.lua", SaveStyle::InPlace), Step::Sleep(50), rm("src/a.lua")] },
-        Variant { name: "create_then_delete_in_one_window", watch_file: None, steps: vec![add("src/new.lua"), Step::Sleep(50), rm("src/new.lua")] },
-        Variant { name: "delete_then_create_in_one_window", watch_file: None, steps: vec![rm("src/a.lua"), Step::Sleep(50), add("src/a.lua")] },
-        Variant { name: "save_in_two_windows", watch_file: None, steps: vec![edit("src/a.lua", SaveStyle::InPlace), Step::Sleep(700), edit("src/a.lua", SaveStyle::InPlace)] },
-        Variant { name: "edit_two_files", watch_file: None, steps: vec![edit("src/a.lua", SaveStyle::InPlace), Step::Sleep(20), edit("src/sub/b.lua", SaveStyle::InPlace)] },
-        Variant { name: "create_file_in_new_dir", watch_file: None, steps: vec![add("src/fresh/dir/new.lua")] },
-        Variant { name: "file_watch_save_atomic", watch_file: Some("ext/dep.lua"), steps: vec![edit("ext/dep.lua", SaveStyle::Atomic)] },
-        Variant { name: "file_watch_delete", watch_file: Some("ext/dep.lua"), steps: vec![rm("ext/dep.lua")] },
-        Variant { name: "atomic_save_then_delete_in_one_window", watch_file: None, steps: vec![edit("src/a.lua", SaveStyle::Atomic), Step::Sleep(50), rm("src/a.lua")] },
-        Variant { name: "rename_then_edit_in_one_window", watch_file: None, steps: vec![mv("src/a.lua", "src/renamed.lua"), Step::Sleep(50), edit("src/renamed.lua", SaveStyle::InPlace)] },
-        Variant { name: "rename_over_existing", watch_file: None, steps: vec![mv("src/a.lua", "src/sub/b.lua")] },
-        Variant { name: "rm_r_then_recreate_in_one_window", watch_file: None, steps: vec![rmdir("src/sub"), Step::Sleep(50), add("src/sub/b.lua")] },
-        Variant { name: "file_watch_and_dir_watch_save_atomic", watch_file: Some("src/a.lua"), steps: vec![edit("src/a.lua", SaveStyle::Atomic)] },
-        Variant { name: "file_watch_and_dir_watch_delete_recreate", watch_file: Some("src/a.lua"), steps: vec![edit("src/a.lua", SaveStyle::DeleteRecreate)] },
-        Variant { name: "file_watch_and_dir_watch_delete", watch_file: Some("src/a.lua"), steps: vec![rm("src/a.lua")] },
-        Variant { name: "rename_directory", watch_file: None, steps: vec![mv("src/sub", "src/moved")] },
-        Variant { name: "rename_directory_then_edit_inside", watch_file: None, steps: vec![mv("src/sub", "src/moved"), Step::Sleep(700), edit("src/moved/b.lua", SaveStyle::InPlace)] },
-        Variant { name: "move_file_into_other_directory", watch_file: None, steps: vec![mv("src/a.lua", "src/sub/deep/a.lua")] },
-        Variant { name: "file_watch_save_in_place", watch_file: Some("ext/dep.lua"), steps: vec![edit("ext/dep.lua", SaveStyle::InPlace)] },
-        Variant { name: "file_watch_and_dir_watch_save_in_place", watch_file: Some("src/a.lua"), steps: vec![edit("src/a.lua", SaveStyle::InPlace)] },
+        Variant { name: "save_in_place", watch_file: None, root: "src", steps: vec![edit("src/a.lua", SaveStyle::InPlace)] },
+        Variant { name: "save_atomic", watch_file: None, root: "src", steps: vec![edit("src/a.lua", SaveStyle::Atomic)] },
+        Variant { name: "save_delete_recreate", watch_file: None, root: "src", steps: vec![edit("src/a.lua", SaveStyle::DeleteRecreate)] },
+        Variant { name: "create_file", watch_file: None, root: "src", steps: vec![add("src/new.lua")] },
+        Variant { name: "create_file_in_nested_existing_dir", watch_file: None, root: "src", steps: vec![add("src/sub/new.lua")] },
+        Variant { name: "delete_file", watch_file: None, root: "src", steps: vec![rm("src/a.lua")] },
+        Variant { name: "delete_nested_file", watch_file: None, root: "src", steps: vec![rm("src/sub/b.lua")] },
+        Variant { name: "rm_r_directory", watch_file: None, root: "src", steps: vec![rmdir("src/sub")] },
+        Variant { name: "rename_file", watch_file: None, root: "src", steps: vec![mv("src/a.lua", "src/renamed.lua")] },
+        Variant { name: "two_saves_in_one_window", watch_file: None, root: "src", steps: vec![edit("src/a.lua", SaveStyle::InPlace), Step::Sleep(100), edit("src/a.lua", SaveStyle::InPlace)] },
+        Variant { name: "save_then_delete_in_one_window", watch_file: None, root: "src", steps: vec![edit("src/a.lua", SaveStyle::InPlace), Step::Sleep(50), rm("src/a.lua")] },
+        Variant { name: "create_then_delete_in_one_window", watch_file: None, root: "src", steps: vec![add("src/new.lua"), Step::Sleep(50), rm("src/new.lua")] },
+        Variant { name: "delete_then_create_in_one_window", watch_file: None, root: "src", steps: vec![rm("src/a.lua"), Step::Sleep(50), add("src/a.lua")] },
+        Variant { name: "save_in_two_windows", watch_file: None, root: "src", steps: vec![edit("src/a.lua", SaveStyle::InPlace), Step::Sleep(700), edit("src/a.lua", SaveStyle::InPlace)] },
+        Variant { name: "edit_two_files", watch_file: None, root: "src", steps: vec![edit("src/a.lua", SaveStyle::InPlace), Step::Sleep(20), edit("src/sub/b.lua", SaveStyle::InPlace)] },
+        Variant { name: "create_file_in_new_dir", watch_file: None, root: "src", steps: vec![add("src/fresh/dir/new.lua")] },
+        Variant { name: "file_watch_save_atomic", watch_file: Some("ext/dep.lua"), root: "src", steps: vec![edit("ext/dep.lua", SaveStyle::Atomic)] },
+        Variant { name: "file_watch_delete", watch_file: Some("ext/dep.lua"), root: "src", steps: vec![rm("ext/dep.lua")] },
+        Variant { name: "atomic_save_then_delete_in_one_window", watch_file: None, root: "src", steps: vec![edit("src/a.lua", SaveStyle::Atomic), Step::Sleep(50), rm("src/a.lua")] },
+        Variant { name: "rename_then_edit_in_one_window", watch_file: None, root: "src", steps: vec![mv("src/a.lua", "src/renamed.lua"), Step::Sleep(50), edit("src/renamed.lua", SaveStyle::InPlace)] },
+        Variant { name: "rename_over_existing", watch_file: None, root: "src", steps: vec![mv("src/a.lua", "src/sub/b.lua")] },
+        Variant { name: "rm_r_then_recreate_in_one_window", watch_file: None, root: "src", steps: vec![rmdir("src/sub"), Step::Sleep(50), add("src/sub/b.lua")] },
+        Variant { name: "file_watch_and_dir_watch_save_atomic", watch_file: Some("src/a.lua"), root: "src", steps: vec![edit("src/a.lua", SaveStyle::Atomic)] },
+        Variant { name: "file_watch_and_dir_watch_delete_recreate", watch_file: Some("src/a.lua"), root: "src", steps: vec![edit("src/a.lua", SaveStyle::DeleteRecreate)] },
+        Variant { name: "file_watch_and_dir_watch_delete", watch_file: Some("src/a.lua"), root: "src", steps: vec![rm("src/a.lua")] },
+        Variant { name: "rename_directory", watch_file: None, root: "src", steps: vec![mv("src/sub", "src/moved")] },
+        Variant { name: "rename_directory_then_edit_inside", watch_file: None, root: "src", steps: vec![mv("src/sub", "src/moved"), Step::Sleep(700), edit("src/moved/b.lua", SaveStyle::InPlace)] },
+        Variant { name: "move_file_into_other_directory", watch_file: None, root: "src", steps: vec![mv("src/a.lua", "src/sub/deep/a.lua")] },
+        Variant { name: "file_watch_registered_through_dotdot", watch_file: Some("src/../ext/dep.lua"), root: "src", steps: vec![edit("ext/dep.lua", SaveStyle::InPlace)] },
+        Variant { name: "root_registered_through_dotdot", watch_file: None, root: "src/../src", steps: vec![edit("src/a.lua", SaveStyle::InPlace), Step::Sleep(700), add("src/fresh/new.lua"), Step::Sleep(700), rm("src/sub/b.lua")] },
+        Variant { name: "root_registered_with_dot_atomic_save", watch_file: None, root: "./src", steps: vec![edit("src/a.lua", SaveStyle::Atomic), Step::Sleep(700), mv("src/sub", "src/moved")] },
+        Variant { name: "file_watch_save_in_place", watch_file: Some("ext/dep.lua"), root: "src", steps: vec![edit("ext/dep.lua", SaveStyle::InPlace)] },
+        Variant { name: "file_watch_and_dir_watch_save_in_place", watch_file: Some("src/a.lua"), root: "src", steps: vec![edit("src/a.lua", SaveStyle::InPlace)] },
     ]
 }
 
@@ -139,7 +144,7 @@ fn real_run(variant: &Variant) -> Result<Vec<Batch>, String> {
     let mut debouncer = new_debouncer(Duration::from_millis(TIMEOUT_MS), None, tx)
         .map_err(|e| format!("debouncer: {}", e))?;
     debouncer
-        .watch(root.join("src"), RecursiveMode::Recursive)
+        .watch(root.join(variant.root), RecursiveMode::Recursive)
         .map_err(|e| format!("watch: {}", e))?;
     if let Some(file) = variant.watch_file {
         debouncer
@@ -190,7 +195,7 @@ fn stub_run(variant: &Variant) -> Vec<Batch> {
         fs.user_write(path, content.as_bytes());
     }
     let mut watches = Watches::default();
-    watches.watch_recursive(&fs, "src");
+    watches.watch_recursive(&fs, variant.root);
     if let Some(file) = variant.watch_file {
         watches.watch_recursive(&fs, file);
     }
